@@ -7,7 +7,12 @@
 import re
 
 from ural.ensure_protocol import ensure_protocol
-from ural.patterns import DOMAIN_TEMPLATE, QUERY_VALUE_IN_URL_TEMPLATE
+from ural.patterns import (
+    DOMAIN_TEMPLATE,
+    SUBDOMAINS,
+    LABEL,
+    QUERY_VALUE_IN_URL_TEMPLATE,
+)
 
 from ural.utils import (
     safe_parse_qs,
@@ -26,9 +31,9 @@ BASE_FACEBOOK_URL = "https://www.facebook.com"
 
 FACEBOOK_ID_RE = re.compile(r"^\d+$")
 FACEBOOK_FULL_ID_RE = re.compile(r"^\d+_\d+$")
-FACEBOOK_DOMAIN_RE = re.compile(r"(?:facebook\.[^.]+$|fb\.me$)", re.I)
+FACEBOOK_DOMAIN_RE = re.compile(r"(?:^|\.)(?:facebook\.[^.]+|fb\.me)\.?$", re.I)
 FACEBOOK_URL_RE = re.compile(
-    DOMAIN_TEMPLATE % r"(?:[^.]+\.)*(?:facebook\.[^.]+|fb\.me)", re.I
+    DOMAIN_TEMPLATE % (SUBDOMAINS + r"(?:facebook\." + LABEL + r"|fb\.me)"), re.I
 )
 MOBILE_REPLACE_RE = re.compile(r"^([^.]+\.)?facebook\.", re.I)
 
